@@ -9,6 +9,7 @@ CONSTANTS
   RemotePrunes <- MC_RemotePrunesQ
   Policies = {"auto", "explicit"}
   ResetHeights <- MC_ResetHeights
+  Defect_ReadBeforePermit = FALSE
   MaxPub = 1
   MaxPrune = 1
   MaxImp = 1
@@ -26,6 +27,7 @@ INVARIANTS
   PrunedOnlyBelowPruneOp
   CursorIsMaxOfAcked
   OnlyOwnTopicAcked
+  ForeignNeverPastCheck
   ReplayExact
   ReplayQueueCoversExpect
   NeverForgotten
